@@ -6,5 +6,7 @@ INVARIANT I_CvConsistency
 INVARIANT I_BarrierGroups
 INVARIANT I_PhaseConsistency
 INVARIANT I_CommExactlyOnce
+INVARIANT I_Lifecycle
+INVARIANT I_FailureReported
 INVARIANT ProgressInv
 POSTCONDITION AtEnd
